@@ -31,6 +31,9 @@ def scale_store_rules(prog, res: Result, cr: CaseRunner):
         reads = [e for e in st.effects if e[0] == "num_elem"]
         if isinstance(v, Num):
             rf = st.norm(v.rf)
+            if v.kind in ("int", "anyrat", "float", "bool"):
+                return ("scale may be stored as a plain int", f"stored {v!r}: the definition's numeric element keeps "
+                        f"the type it was written with, and int / int between two such scales yields a float")
             if rf.is_one():
                 if reads and not all(r[1] for r in reads):
                     return ("scale from non-normalised definition", "num_elem read on a term that is not normalised")
